@@ -144,6 +144,10 @@ func (in *Interp) allocGlobals(pkg *ssa.Package) {
 		if g, ok := m.(*ssa.Global); ok {
 			if _, done := in.globals[g]; !done {
 				v := zero(g.Type().(*types.Pointer).Elem())
+				if pkg.Pkg.Path() == "crypto/rand" && g.Name() == "Reader" {
+					// environment: reads succeed and leave the buffer as it is (content is arbitrary for the callers)
+					v = Iface{T: types.Typ[types.Int], V: Opaque{"crypto/rand.Reader"}}
+				}
 				in.globals[g] = &v
 			}
 		}
